@@ -86,8 +86,8 @@ func tokenizeSpecial(text string) (AST, error) {
 }
 
 func c17(args []string) error {
-	if len(args) != 3 {
-		return fmt.Errorf("usage: c17 objects outdir seed")
+	if len(args) < 3 {
+		return fmt.Errorf("usage: c17 objects outdir seed [docs.rows]")
 	}
 	var trees []Tree
 	if err := readLines(args[0], func(line []byte) error {
@@ -157,6 +157,47 @@ func c17(args []string) error {
 			record(Tree{Kind: "Feature", Kids: []Tree{inner}}, f, fmt.Sprintf("NewFeature members=%q", m))
 		}
 	}
-	printJSON(obj{"objects": len(trees), "serialisations": n, "events": ev.N})
+	// objects built through Parse (the accepted documents of the Gen_Doc universe): the entry points agree, append-only, valid JSON
+	parsed := 0
+	if len(args) > 3 && args[3] != "" {
+		rows, err := loadDocs(args[3])
+		if err != nil {
+			return err
+		}
+		for _, r := range rows {
+			if !r.l2acc {
+				continue
+			}
+			for k := 0; k < 2; k++ {
+				text := r.ast.Text(renderOpts{table: tokenTables[(k+r.b)%len(tokenTables)]})
+				po := parseOptSets[(k+r.b)%len(parseOptSets)]
+				o, perr := geojson.Parse(text, &po)
+				if perr != nil {
+					continue
+				}
+				j := o.JSON()
+				mj, _ := o.MarshalJSON()
+				e := obj{"op": "ser2", "text": clip(text, 300), "output": clip(j, 400)}
+				e["same4"] = j == o.String() && j == string(mj) && j == string(o.AppendJSON(nil))
+				appendok, prefixok := true, true
+				for _, prefix := range []string{"", `[1,`} {
+					for _, spare := range []int{0, 3, 300} {
+						buf := make([]byte, len(prefix), len(prefix)+spare)
+						copy(buf, prefix)
+						res := o.AppendJSON(buf)
+						appendok = appendok && string(res) == prefix+j
+						prefixok = prefixok && bytes.Equal(buf[:len(prefix)], []byte(prefix))
+					}
+				}
+				e["appendok"], e["prefixok"] = appendok, prefixok
+				e["valid"] = json.Valid([]byte(j))
+				var top map[string]json.RawMessage
+				e["isobject"] = json.Unmarshal([]byte(j), &top) == nil && top["type"] != nil
+				ev.Emit(e)
+				parsed++
+			}
+		}
+	}
+	printJSON(obj{"objects": len(trees), "serialisations": n, "parsed_objects_serialised": parsed, "events": ev.N})
 	return nil
 }
